@@ -1807,6 +1807,10 @@ fn serial_orders(lens: &[usize]) -> Vec<Vec<usize>> {
 // ------------------------------------------------------------------------------------------------
 
 pub struct C20 {
+    /// quick tier (a third of the generated pairs per run) or thorough (all of them)
+    quick: bool,
+    /// run seed (selects the third)
+    seed: u64,
     /// scenario text -> outcomes (replies, final state) of every sequential order
     serial_cache: RefCell<HashMap<String, Vec<(Vec<(usize, usize, String)>, String, bool)>>>,
     /// case text -> result of the run done while generating the case
@@ -2288,7 +2292,7 @@ impl Group for C20 {
     }
     fn budget(&self, tier: Tier) -> usize {
         match tier {
-            Tier::Quick => 700,
+            Tier::Quick => 350,
             Tier::Thorough => 50_000,
         }
     }
@@ -2384,7 +2388,11 @@ impl Group for C20 {
         //      gen_pairs.rs): every two request kinds whose programs touch a common lock class, one
         //      representative request each, complete single-preemption enumeration in both orders.
         let mut seen: BTreeSet<String> = pairs.iter().map(|sc| scenario_lines(sc).join("|")).collect();
-        for (ka, kb) in gen_pairs::GEN_PAIRS {
+        //      Quick tier: a third of them per run, selected by the seed (seeds 1..3 cover all); thorough: all.
+        for (gi, (ka, kb)) in gen_pairs::GEN_PAIRS.iter().enumerate() {
+            if self.quick && (gi as u64 + self.seed) % 3 != 0 {
+                continue;
+            }
             if let (Some(a), Some(b)) = (kind_representative(ka), kind_representative(kb)) {
                 let stub = a == Req::SetupChan || b == Req::SetupChan;
                 let sc = p(1, stub, a, b);
@@ -2424,6 +2432,6 @@ pub fn try_req() {
     }
 }
 
-pub fn groups() -> Vec<Box<dyn Group>> {
-    vec![Box::new(C20 { serial_cache: RefCell::new(HashMap::new()), run_cache: RefCell::new(HashMap::new()), current: RefCell::new(None), edge_src: RefCell::new(BTreeMap::new()), cycles_done: RefCell::new(BTreeSet::new()), directed: RefCell::new(Default::default()), directed_stop: RefCell::new(BTreeSet::new()) })]
+pub fn groups(quick: bool, seed: u64) -> Vec<Box<dyn Group>> {
+    vec![Box::new(C20 { quick, seed, serial_cache: RefCell::new(HashMap::new()), run_cache: RefCell::new(HashMap::new()), current: RefCell::new(None), edge_src: RefCell::new(BTreeMap::new()), cycles_done: RefCell::new(BTreeSet::new()), directed: RefCell::new(Default::default()), directed_stop: RefCell::new(BTreeSet::new()) })]
 }
